@@ -208,32 +208,57 @@ example : ∃ b, Lemmas.C03.BuiltFor (.list (.mk "element" .int32 true [])) true
     by simp [WFB, VLen, OffsOK, dec, maskNull], by simp [Lemmas.C03.Sound],
     by simp [Lemmas.C03.WFX, offMax, Lemmas.C03.leafRange, inRng, primRange, primOfInt], by decide⟩
 
-/-- the builder created for a field stands for it (every Map type with exactly two entry children) -/
-theorem newB_builtFor (path : String) (f : Field) (b : B) (hm : Lemmas.C03.Map2F f) (h : newB path f = .ok b) :
+/-- the builder created for a field stands for it.  No hypothesis on the field: `build_builder` refuses Map fields with
+other than two entry children and dictionaries with a non-integer key type (`map_three_children_refused`,
+`dictionary_float_keys_refused`) -/
+theorem newB_builtFor (path : String) (f : Field) (b : B) (h : newB path f = .ok b) :
     Lemmas.C03.BuiltFor f.dataType f.nullable b :=
-  Lemmas.C03.newB_builtFor path f b hm h
+  Lemmas.C03.newB_builtFor path f b h
 
-theorem newRoot_builtFor (fields : List Field) (root : B) (hm : ∀ f ∈ fields, Lemmas.C03.Map2F f)
+theorem newRoot_builtFor (fields : List Field) (root : B)
     (h : newRoot fields = .ok root) : Lemmas.C03.BuiltFor (.struct (Fields.ofList fields)) false root :=
-  Lemmas.C03.newRoot_builtFor fields root hm h
+  Lemmas.C03.newRoot_builtFor fields root h
 
-/-- **finding (Map with more than two entry children).**  `build_builder` only looks at the first two children of
-a Map's entries struct; the field is accepted and the produced array's type is not the declared one. -/
-theorem map_three_children_not_wf :
-    ∃ (f : Field) (b : B) (a : Arr), newB "$.m" f = .ok b ∧ finish {} b = .ok a ∧ WF f a = false :=
-  ⟨.mk "m" (.map (.mk "entries" (.struct (.cons (.mk "key" .int32 false []) (.cons (.mk "value" .int32 false [])
-      (.cons (.mk "extra" .int32 false []) .nil)))) false []) false) false [], _, _, rfl, rfl, by decide⟩
+/-- a Map field with three entry children -/
+def exMap3 : Field :=
+  .mk "m" (.map (.mk "entries" (.struct (.cons (.mk "key" .int32 false []) (.cons (.mk "value" .int32 false [])
+      (.cons (.mk "extra" .int32 false []) .nil)))) false []) false) false []
 
-/-- **finding (Dictionary with a floating-point key type).**  `build_builder` accepts any key type; a `Float32` /
-`Float64` keys builder accepts the `u64` index the dictionary builder pushes (`serialize_u64` as float), so the field
-is accepted and the produced dictionary array has float keys: not a valid Arrow dictionary (no slot decodes). -/
-theorem dictionary_float_keys_not_wf :
-    ∃ (f : Field) (b0 b : B) (a : Arr), newB "$.d" f = .ok b0 ∧ push {} b0 (.str "") = .ok b ∧ finish {} b = .ok a ∧
-      WF f a = false := by
-  refine ⟨.mk "d" (.dictionary .float32 .utf8) false [],
-    .dictionary "$.d" (.leaf "$.d.key" .f32 none []) (.bytes "$.d.value" .utf8 none [0] []) [],
+/-- **fixed finding (Map with more than two entry children), repaired code** (repo fix 095456f): `build_builder`
+refuses the field -/
+theorem map_three_children_refused : ∃ e, newB "$.m" exMap3 = .error e := ⟨_, rfl⟩
+
+/-- **… pinned code.**  The pinned `build_builder` only looked at the first two children of a Map's entries struct: it
+returned the builder `b` below (a map builder over the first two children), and the array that builder finishes into is
+not an array of the declared field. -/
+theorem map_three_children_pinned_not_wf :
+    ∃ (b : B) (a : Arr),
+      b = .map "$.m" { entriesName := "entries", sorted := false, keys := ⟨"key", false, []⟩, values := ⟨"value", false, []⟩ }
+        none [0] (.leaf "$.m.entries.key" (.int .i32) none []) (.leaf "$.m.entries.value" (.int .i32) none []) ∧
+      finish {} b = .ok a ∧ WF exMap3 a = false :=
+  ⟨_, _, rfl, rfl, by decide⟩
+
+/-- **fixed finding (Dictionary with a floating-point key type), repaired code** (repo fix 7359431): `build_builder`
+refuses every non-integer key type -/
+theorem dictionary_float_keys_refused :
+    ∃ e, newB "$.d" (.mk "d" (.dictionary .float32 .utf8) false []) = .error e := ⟨_, rfl⟩
+
+theorem dictionary_key_refused (path : String) (k v : DataType) (nl : Bool) (md : Metadata) (hk : isIntDT k = false) :
+    ∃ e, newDT path (.dictionary k v) nl md = .error e := by
+  simp only [newDT, hk]
+  exact ⟨_, rfl⟩
+
+/-- **… pinned code.**  The pinned `build_builder` accepted any key type: for `Dictionary(Float32, Utf8)` it returned
+the builder `b0` below; a `Float32` keys builder accepts the `u64` index the dictionary builder pushes (`serialize_u64`
+as float), so the push succeeds and the produced dictionary array has float keys: not a valid Arrow dictionary. -/
+theorem dictionary_float_keys_pinned_not_wf :
+    ∃ (b0 b : B) (a : Arr),
+      b0 = .dictionary "$.d" (.leaf "$.d.key" .f32 none []) (.bytes "$.d.value" .utf8 none [0] []) [] ∧
+      push {} b0 (.str "") = .ok b ∧ finish {} b = .ok a ∧
+      WF (.mk "d" (.dictionary .float32 .utf8) false []) a = false := by
+  refine ⟨.dictionary "$.d" (.leaf "$.d.key" .f32 none []) (.bytes "$.d.value" .utf8 none [0] []) [],
     .dictionary "$.d" (.leaf "$.d.key" .f32 none [0]) (.bytes "$.d.value" .utf8 none [0, 0] []) [""],
-    .dictionary (.prim .float32 none [0]) (.bytes .utf8 none [0, 0] []), by decide, ?_, ?_, by decide⟩
+    .dictionary (.prim .float32 none [0]) (.bytes .utf8 none [0, 0] []), rfl, ?_, ?_, by decide⟩
   · have hp : pushScalar {} (.bytes "$.d.value" .utf8 none [0] []) (.str "") =
         .ok (.bytes "$.d.value" .utf8 none [0, 0] []) := by
       simp [pushScalar, isUtf8Ty, scalarToString, strBytes, setValidity, duplicateLast, incrementLast, bind,
@@ -353,9 +378,9 @@ theorem C03_wf_of_root (ext : Ext) (fields : List Field) (rows : List SVal) (arr
 `hpush` is `Build.push_takeRest ext` -/
 theorem runRows_builtFor (ext : Ext) (fields : List Field) (rows : List SVal) (root : B)
     (hpush : ∀ (x : SVal) (b b' : B), push ext b x = .ok b' → takeRest b' = takeRest b)
-    (hm : ∀ f ∈ fields, Lemmas.C03.Map2F f) (h : runRows ext fields rows = .ok root) :
+    (h : runRows ext fields rows = .ok root) :
     Lemmas.C03.BuiltFor (.struct (Fields.ofList fields)) false root :=
-  Lemmas.C03.runRows_builtFor ext fields rows root hpush hm h
+  Lemmas.C03.runRows_builtFor ext fields rows root hpush h
 
 /-- **offsets and UTF-8, unconditionally.**  `PX` (bytes builders: offsets start at 0, never decrease, end at
 `data.length`, stay ≤ i32/i64 max, every Utf8/LargeUtf8 slot valid UTF-8; list/map offsets ≤ i32/i64 max) is
@@ -378,12 +403,12 @@ theorem SchemaOKFs_ofList : ∀ (fields : List Field), (∀ f ∈ fields, Lemmas
 
 /-- everything the physical layer needs to know about the final builder state, from the interface hypotheses -/
 theorem root_facts (ext : Ext) (fields : List Field) (rows : List SVal) (root : B)
-    (hmap : ∀ f ∈ fields, Lemmas.C03.Map2F f) (hschema : ∀ f ∈ fields, Lemmas.C03.SchemaOKF f)
+    (hschema : ∀ f ∈ fields, Lemmas.C03.SchemaOKF f)
     (hpush : ∀ (x : SVal) (b b' : B), push ext b x = .ok b' → takeRest b' = takeRest b)
     (hw : WFB root) (hstrict : Lemmas.C03.StrictDict root) (hrun : runRows ext fields rows = .ok root) :
     Lemmas.C03.BuiltFor (.struct (Fields.ofList fields)) false root ∧ Lemmas.C03.Faithful root ∧
       Lemmas.C03.Sound root ∧ Lemmas.C03.PX root := by
-  have hb := runRows_builtFor ext fields rows root hpush hmap hrun
+  have hb := runRows_builtFor ext fields rows root hpush hrun
   have hshape := Lemmas.C03.BuiltFor_ShapeOK root _ _ hb (by
     simp only [Lemmas.C03.SchemaOK]; exact SchemaOKFs_ofList fields hschema)
   have hf := Lemmas.C03.Faithful_of_strict root hstrict hshape
@@ -461,10 +486,12 @@ With agent-refine's theorems merged (`Build.push_takeRest`, `Props.C01.runRows_r
 `WFB_StrictDict`) nothing of the interface remains.  What stays are explicit assumptions on the schema, the rows and
 `Ext`, each justified in notes/C03.md:
 
-  schema   `Map2F` (Map entries have exactly two children), `SchemaOKF` (no `FixedSizeBinary(0)`; dictionary keys of an
-           integer type) — exclusions of recorded findings, each with a witness theorem in this file;
+  schema   `SchemaOKF` (no `FixedSizeBinary(0)`: exclusion of the recorded known finding, witness theorem in this file);
            `Safe root0` (Build/Inv.lean: no dictionary with non-nullable keys below a nullable struct / fixed-size
            list; a property of the fresh root, i.e. of the schema — `Props.C01.dict_placeholder_unstable`)
+           (`Map2F` — Map entries with exactly two children — and the integer-key half of the former `SchemaOKF` are no
+           longer assumptions: `build_builder` refuses those fields, repo fixes 095456f / 7359431, and `BuiltFor` is
+           derived from `newRoot fields = ok _` alone)
   rows     `SValOK` (an iN/uN/f32/f64 call carries a value of that width).  The former assumption `rawOK` (raw key/value
            call streams alternate) is GONE: since repo fix bcc3416 a Map builder refuses the streams that do not
            (`Props.C01.map_refuses_non_alternating`), so `toMarrow … = .ok arrs` already excludes them
@@ -478,7 +505,7 @@ bytes and clear padding; offsets start at 0, never decrease, end at the child le
 child lengths; type ids, dense offsets and dictionary keys in range; string data valid UTF-8; values within their
 physical range), there is exactly one array per field, and every array has `rows.length` rows. -/
 theorem C03_wf (ext : Ext) (fields : List Field) (rows : List SVal) (arrs : List Arr)
-    (hmap : ∀ f ∈ fields, Lemmas.C03.Map2F f) (hschema : ∀ f ∈ fields, Lemmas.C03.SchemaOKF f)
+    (hschema : ∀ f ∈ fields, Lemmas.C03.SchemaOKF f)
     (hsafe : ∀ root0, newRoot fields = .ok root0 → Safe root0)
     (hext : Lemmas.C03.ExtOK ext)
     (hrows : ∀ x ∈ rows, Lemmas.C03.SValOK x)
@@ -495,7 +522,7 @@ theorem C03_wf (ext : Ext) (fields : List Field) (rows : List SVal) (arrs : List
     | ok r0 => exact ⟨r0, rfl⟩
   obtain ⟨root0, h0⟩ := h0
   obtain ⟨hw, hlen, _, hcols⟩ := Props.C01.runRows_rows ext fields rows root0 root h0 (hsafe root0 h0) hrun
-  have hfacts := root_facts ext fields rows root hmap hschema (Build.push_takeRest ext) hw
+  have hfacts := root_facts ext fields rows root hschema (Build.push_takeRest ext) hw
     (Lemmas.C03.WFB_StrictDict root hw) hrun
   have hx := Lemmas.C03.runRows_WFX ext hext fields rows root hrows hrun (Build.WFB_small root hw)
   cases root with
@@ -539,7 +566,7 @@ theorem C03_wf (ext : Ext) (fields : List Field) (rows : List SVal) (arrs : List
 /-- **the physical half of C01 for `to_marrow`, every builder family.**  The returned arrays decode to exactly the
 columns the final builder state holds (`decRoot root`, `rows.length` slots each). -/
 theorem toMarrow_decode_state (ext : Ext) (fields : List Field) (rows : List SVal) (arrs : List Arr)
-    (hmap : ∀ f ∈ fields, Lemmas.C03.Map2F f) (hschema : ∀ f ∈ fields, Lemmas.C03.SchemaOKF f)
+    (hschema : ∀ f ∈ fields, Lemmas.C03.SchemaOKF f)
     (hsafe : ∀ root0, newRoot fields = .ok root0 → Safe root0)
     (h : toMarrow ext fields rows = .ok arrs) :
     ∃ root, runRows ext fields rows = .ok root ∧ arrs.map decodeAll = (decRoot root).map (·.map .ok) ∧
@@ -555,7 +582,7 @@ theorem toMarrow_decode_state (ext : Ext) (fields : List Field) (rows : List SVa
     obtain ⟨hw, _, _, hc⟩ := Props.C01.runRows_rows ext fields rows root0 root h0 (hsafe root0 h0) hrun
     exact ⟨hw, hc⟩
   obtain ⟨root, hrun, hd⟩ := toMarrow_decode_of_root ext fields rows arrs (fun r hr => (hroot r hr).1)
-    (fun r hr => (root_facts ext fields rows r hmap hschema (Build.push_takeRest ext) (hroot r hr).1
+    (fun r hr => (root_facts ext fields rows r hschema (Build.push_takeRest ext) (hroot r hr).1
       (Lemmas.C03.WFB_StrictDict r (hroot r hr).1) hr).2.1) h
   exact ⟨root, hrun, hd, (hroot root hrun).2⟩
 
@@ -607,8 +634,7 @@ example : ∀ arrs, toMarrow {} exFields exRows = .ok arrs →
     arrs.length = exFields.length ∧ ∀ (j : Nat) (f : Field) (a : Arr), exFields[j]? = some f →
       arrs[j]? = some a → WF f a = true ∧ (decodeAll a).length = exRows.length := by
   intro arrs h
-  refine C03_wf {} exFields exRows arrs ?_ ?_ ?_ ?_ ?_ h
-  · simp [exFields, Lemmas.C03.Map2F, Lemmas.C03.Map2]
+  refine C03_wf {} exFields exRows arrs ?_ ?_ ?_ ?_ h
   · simp [exFields, Lemmas.C03.SchemaOKF, Lemmas.C03.SchemaOK]
   · intro root0 h0
     rw [show newRoot exFields = .ok (.struct "$" 0 none
